@@ -87,10 +87,12 @@ pub struct Meter {
     pub inexact: bool,
     /// index of the first call from which on `e_before` is only a lower bound
     pub inexact_from: Option<usize>,
+    /// boundary situations the execution went through (coverage keys)
+    pub edges: Vec<&'static str>,
 }
 
 impl Meter {
-    pub fn new(budget: u64) -> Self { Meter { budget, recs: vec![], inexact: false, inexact_from: None } }
+    pub fn new(budget: u64) -> Self { Meter { budget, recs: vec![], inexact: false, inexact_from: None, edges: vec![] } }
 
     pub fn begin(&mut self, name: &str, energy: u64) { self.recs.push(CallRec { name: name.to_string(), e_before: energy, charges: vec![], trapped: false, oob: false, max_len: 0, copy_charge: None }); }
 
@@ -335,6 +337,7 @@ impl ModelV0 {
                 m.tick(energy, copy_from_host_cost(length))?;
                 let r = range(m, mem, start, length as u64)?;
                 if offset as usize > self.state.len() {
+                    m.edges.push("edge.v0.load_state.offset_gt_size");
                     return Err(trap("load_state past the end of the state"));
                 }
                 let src = &self.state[offset as usize..];
@@ -349,6 +352,12 @@ impl ModelV0 {
                 let r = range(m, mem, start, length as u64)?;
                 if offset as usize > self.state.len() {
                     return Err(trap("write_state past the end of the state"));
+                }
+                if offset > 0 && offset as usize + length as usize > MAX_CONTRACT_STATE {
+                    m.edges.push("edge.v0.write_state.offset_gt0_truncated_at_16k");
+                }
+                if offset as usize + length as usize > MAX_CONTRACT_STATE {
+                    m.edges.push("edge.v0.write_state.truncated_at_16k");
                 }
                 let end = (offset as usize + length as usize).min(if brk("write_state_limit") { MAX_CONTRACT_STATE + 1 } else { MAX_CONTRACT_STATE });
                 if self.state.len() < end {
